@@ -962,7 +962,7 @@ func init() {
 		Meta: propertyMeta{
 			ID:          "C08",
 			Explanation: "The wrapper writer is a three-state machine (unset / status recorded / committed) checked per method for all operation sequences: (C08-LATCH) the underlying WriteHeader has exactly one call site, guarded by length == noWritten, whose path sets the latch and passes the recorded status after the 0->200 default; noWritten is stored only together with a new underlying writer; other length stores are 0 or length + n with n from the underlying Write. (C08-PRECOMMIT) every call on the underlying writer that can commit implicitly (Write, Flush, ...) is dominated by the explicit commit; Hijack marks the response written. (C08-RECORD) WriteHeader only records, and only positive statuses. (C08-END) every normal exit of the dispatcher and the recovered exit after the panic hook pass the commit. (C08-FACADE) the raw writer is reachable only through the wrapper: Resp always points to the same context's wrapper, adapters pass c.Resp, rux never calls RawWriter.",
-			NotDecided:  []string{"body concatenation and Length() arithmetic under short writes/errors of the underlying writer (only 'length += n of the underlying Write' is checked)", "what a user-replaced c.Resp does", "which status wins when a helper is called after the commit (a run-time order)"},
+			NotDecided:  []string{"body concatenation and the arithmetic of Length() beyond 'on every path from the underlying Write to a return, length += the count it returned'", "what a user-replaced c.Resp does", "which status wins when a helper is called after the commit (a run-time order)"},
 			Assumptions: []string{"net/http.ResponseWriter commits implicitly on Write/Flush (documented)", "handlers write through c.Resp or Context helpers"},
 		},
 		Rules: []ruleFn{
